@@ -830,8 +830,9 @@ def shape_variant(draw, base):
 @st.composite
 def functional_program(draw, max_ops=10, min_ops=1, max_elems=24, allow_int=True, allow_const_flag=True,
                        allow_const_view=True, dtypes=("float64",), leaf_kinds=None, const_flag_odds=11,
-                       allow_const_false=False):
+                       allow_const_false=False, ufunc_options=False):
     b = Builder(draw, max_elems=max_elems, allow_int=allow_int)
+    b.ufunc_options = ufunc_options
     b.allow_const_flag = allow_const_flag
     b.allow_const_view = allow_const_view
     b.const_flag_odds = const_flag_odds
